@@ -12,3 +12,15 @@ static HTTP_CLIENT: LazyLock<reqwest::Client> = LazyLock::new(|| {
         .build()
         .expect("failed to build reqwest client")
 });
+
+/// Verification hook (only with `--cfg passage_verif`): lets a test harness capture the has-joined request by
+/// redirecting it to the server named in `PASSAGE_VERIF_SESSION_SERVER` (e.g. `http://127.0.0.1:1234`). Only
+/// scheme and authority are replaced; path and query are passed on exactly as the adapter built them.
+#[cfg(passage_verif)]
+pub(crate) fn verif_session_server(url: String) -> String {
+    const REAL: &str = "https://sessionserver.mojang.com";
+    match (std::env::var("PASSAGE_VERIF_SESSION_SERVER"), url.strip_prefix(REAL)) {
+        (Ok(base), Some(rest)) => format!("{base}{rest}"),
+        _ => url,
+    }
+}
